@@ -43,6 +43,7 @@ type c11Stats struct {
 	OpsAborted     int               `json:"ops_aborted"`
 	OpsCompared    int               `json:"ops_compared"`
 	OverBudget     int               `json:"runs_over_budget"`
+	ColdRuns       int               `json:"cold_runs"`
 	SchedHashes    []uint64          `json:"sched_hashes"`
 	SitePairList   []uint64          `json:"site_pairs"`
 	Probes         map[string]int    `json:"probes"`
@@ -223,6 +224,7 @@ func aggregateC11(o options, stats []c11Stats, wall time.Duration) map[string]in
 		tot.OpsAborted += st.OpsAborted
 		tot.OpsCompared += st.OpsCompared
 		tot.OverBudget += st.OverBudget
+		tot.ColdRuns += st.ColdRuns
 		addMap(tot.RunsBySource, st.RunsBySource)
 		addMap(tot.RunsByStrategy, st.RunsByStrategy)
 		addMap(tot.RunsByMask, st.RunsByMask)
@@ -289,6 +291,7 @@ func aggregateC11(o options, stats []c11Stats, wall time.Duration) map[string]in
 		"distinct_interleavings":         len(sched),
 		"distinct_preemption_site_pairs": len(pairs),
 		"runs_over_yield_budget":         tot.OverBudget,
+		"cold_runs_fresh_process_concurrent_phase_first": tot.ColdRuns,
 		"probes":                         tot.Probes,
 		"probes_stuck_at_zero":           stuck,
 		"simulated_runs_per_hour":        perHour,
